@@ -1241,8 +1241,13 @@ class AsyncBackgroundBatcher(Generic[A_contra, R_co]):
             # CancelledError of something awaited by the function:
             # the callers must not be left waiting forever.
             logger.debug("Exception while processing batch", exc_info=True)
+            err: BaseException = e
+            if isinstance(e, StopIteration):
+                # Can't be set on a future: wrap it like generators do
+                err = RuntimeError("batch function raised StopIteration")
+                err.__cause__ = e
             for fut in futs.values():
-                fut.set_exception(e)
+                fut.set_exception(err)
             if not isinstance(e, Exception):
                 raise  # Don't swallow cancellation, interrupts, etc.
             return
